@@ -65,3 +65,59 @@ Fixpoint dialer_loop (s : amap Z) (x a : Z) (e : list env) : option dres * amap 
 (* the link held by the controller's link dialer for key (x, a) *)
 Definition dialer_link (r : option dres) : option Z :=
   match r with Some (DLink p) => Some p | _ => None end.
+
+(* ---- overlapping dials to the same address ----
+   t.dialers is keyed by the address only: a DialPeer(x, a) that finds a dialer
+   in flight for a joins it, whoever it was created for, and waits for the same
+   result; each caller then applies the remote-peer check with ITS OWN
+   requested peer.  Calls are numbered in the order they are made. *)
+Inductive cev :=
+| Call (x : Z)          (* DialPeer(x, a) is entered (up to waiting on the dialer) *)
+| Answer (who : ans)    (* the in-flight dial completes *)
+| CDrop.                (* the link at a is lost *)
+
+Record cstate := mkC {
+  c_tab : amap Z;                 (* t.links *)
+  c_wait : list (nat * Z);        (* callers waiting on the in-flight dialer: (call number, requested peer) *)
+  c_next : nat;                   (* number of the next call *)
+  c_res : list (nat * dres)       (* results delivered so far *)
+}.
+
+Definition caller_result (p : Z) (w : nat * Z) : nat * dres :=
+  (fst w, if negb (Z.eqb (snd w) 0) && negb (Z.eqb p (snd w)) then DErr else DLink p).
+
+Definition cstep (a : Z) (st : cstate) (e : cev) : cstate :=
+  match e with
+  | Call x =>
+      match c_wait st with
+      | _ :: _ =>       (* a dialer is in flight: join it (CheckAlreadyConnected saw no link yet) *)
+          mkC (c_tab st) (c_wait st ++ [(c_next st, x)]) (S (c_next st)) (c_res st)
+      | [] =>
+          match aget a (c_tab st) with
+          | Some p =>
+              mkC (c_tab st) [] (S (c_next st))
+                  (c_res st ++ [(c_next st, if Z.eqb p x then DNoLink else DErr)])
+          | None => mkC (c_tab st) [(c_next st, x)] (S (c_next st)) (c_res st)
+          end
+      end
+  | Answer who =>
+      match c_wait st with
+      | [] => st
+      | ws =>
+          match who with
+          | Nobody => mkC (c_tab st) [] (c_next st) (c_res st ++ map (fun w => (fst w, DErr)) ws)
+          | Peer p => mkC (aset a p (c_tab st)) [] (c_next st) (c_res st ++ map (caller_result p) ws)
+          end
+      end
+  | CDrop => mkC (adel a (c_tab st)) (c_wait st) (c_next st) (c_res st)
+  end.
+
+Definition crun (a : Z) (es : list cev) : cstate := fold_left (cstep a) es (mkC [] [] 0%nat []).
+
+(* the requested peer of call number i *)
+Fixpoint requested (es : list cev) (i : nat) : option Z :=
+  match es with
+  | [] => None
+  | Call x :: es' => match i with O => Some x | S j => requested es' j end
+  | _ :: es' => requested es' i
+  end.
